@@ -114,7 +114,14 @@ def other_alg(alg):
     return "hmac-sha224" if alg == "hmac-sha1" else "hmac-sha1"
 
 
-def build_message(kind, i, n):
+# rendering options of Message.to_wire / Message.use_edns (start field `render`, chosen by the generator):
+#   plain  defaults          edns  an OPT RR precedes the TSIG RR
+#   pad    EDNS padding to a multiple of 64 octets
+#   trunc  content that does not fit max_size=512 with prefer_truncation=True (TC is set, record sets are dropped)
+RENDER_KW = {"plain": {}, "edns": {}, "pad": {}, "trunc": {"max_size": 512, "prefer_truncation": True}}
+
+
+def build_message(kind, i, n, render="plain"):
     """the i-th (1-based) message of the exchange, without TSIG"""
     mid = 0x1230 + i
     m = dns.message.Message(id=mid)
@@ -127,6 +134,15 @@ def build_message(kind, i, n):
         if i == 1:
             m.question.append(dns.rrset.RRset(qn, dns.rdataclass.IN, dns.rdatatype.A))
         m.answer.append(dns.rrset.from_text(qn, 60, "IN", "A", "10.0.0.%d" % i))
+    if render == "trunc":
+        # 8 record sets of 6 address records (about 100 octets each): only some of them fit 512 octets with the TSIG
+        sect = m.answer if kind != "query" else m.authority
+        for k in range(8):
+            sect.append(dns.rrset.from_text("t%d.example." % k, 60, "IN", "A", *["10.%d.%d.%d" % (i, k, j) for j in range(6)]))
+    elif render == "edns":
+        m.use_edns(0, payload=1232)
+    elif render == "pad":
+        m.use_edns(0, payload=1232, pad=64)
     return m
 
 
@@ -135,7 +151,7 @@ def sign_one(var, key, m, fudge, error, other, origid, reqmac, multi, sctx):
     if var["route"] == "message":
         m.use_tsig(key, fudge=fudge, original_id=origid, tsig_error=error, other_data=other)
         m.request_mac = reqmac
-        wire = m.to_wire(multi=multi, tsig_ctx=sctx)
+        wire = m.to_wire(multi=multi, tsig_ctx=sctx, **RENDER_KW[var.get("render", "plain")])
         return wire, (m.tsig_ctx if multi else None)
     r = dns.renderer.Renderer(m.id, int(m.flags))
     for q in m.question:
@@ -345,6 +361,8 @@ def replay(script, var, tid, flips):
     st = script[0]
     kind, alg, fudge, error = st["kind"], st["alg"], st["fudge"], st["error"]
     multi = kind == "stream"
+    render = st.get("render", "plain")
+    var = dict(var, render=render)
     base = BASES[var["base"]]
     keytext = KEYTEXT[var["spell"]]
     algn = alg_name(alg, var["spell"])
@@ -381,7 +399,7 @@ def replay(script, var, tid, flips):
                 elif ev["mod"] == "body":
                     m.answer.append(dns.rrset.from_text("b%d.example." % nres, 30, "IN", "A", "10.0.9.%d" % nres))
                 n0 = len(EVENTS)
-                wire = m.to_wire(multi=multi, tsig_ctx=sctx)
+                wire = m.to_wire(multi=multi, tsig_ctx=sctx, **RENDER_KW[render])
                 if multi:
                     sctx = m.tsig_ctx
                 sg = [x for x in EVENTS[n0:] if x[0] == "sign"]
@@ -394,7 +412,7 @@ def replay(script, var, tid, flips):
             out_sends.append((rec, wire))
             continue
         _Clock.now = base
-        m = build_message(kind, i, len(sends))
+        m = build_message(kind, i, len(sends), render)
         origid = None if var["origid"] == "same" else (m.id ^ 0x0101)
         rec = {"op": "send", "signed": ev["signed"], "t": base}
         try:
@@ -405,7 +423,7 @@ def replay(script, var, tid, flips):
                 dig = sg[-1][1] if sg else b""
                 rec.update(wire=list(wire), dig=list(dig), hm=std_mac(st["hash"], SECRET, dig), res="ok", nsign=len(sg))
             else:
-                wire = m.to_wire()
+                wire = m.to_wire(**RENDER_KW[render])
                 if sctx is not None:
                     sctx.update(wire)  # the driver plays the server: unsigned envelopes are digested whole
                 rec.update(wire=list(wire), dig=[], hm=[], res="ok", nsign=0)
